@@ -12,6 +12,10 @@ mod shim;
 use mcx::Tier;
 
 fn main() {
+    mcx::guard_main(real_main);
+}
+
+fn real_main() {
     let args: Vec<String> = std::env::args().collect();
     if args.len() < 3 {
         eprintln!("usage: taskmc <C06|C15|C19> <quick|thorough> | taskmc replay <file>");
